@@ -362,9 +362,71 @@ func c03Configs(maxN int) []searchCfg {
 	return out
 }
 
+// c03Counted: n = 9 and n = 10, where an orbit sweep is out of reach: class identity = the library's own canonical
+// form (established by C01), expected number of classes = the published count (OEIS A000088). All shards of a
+// split together must yield that many graphs with pairwise different canonical forms.
+var graphCounts = map[int]int{9: 274668, 10: 12005168}
+
+func c03Counted(c *Ctx, n, m int) {
+	shards := make([][]uint64, m)
+	var bad int64
+	c.parFor(int64(m), 1, func(lo, hi int64) {
+		for a := lo; a < hi; a++ {
+			it := search.All(n, int(a), m)
+			var canon []uint64
+			for it.Next() {
+				g := it.Value()
+				if g.N() != n {
+					c.Fail(&Failure{Class: "search/malformed-value", What: fmt.Sprintf("n=%d shard %d/%d: value with %d vertices", n, a, m, g.N()), Kind: "search-counted", Replay: map[string]int{"n": n, "m": m}})
+					return
+				}
+				mask := mgFromGraph(g).mask()
+				p := graph.CanonicalIsomorph(g)
+				if !isPerm(p, n) {
+					c.mu.Lock()
+					bad++
+					c.mu.Unlock()
+					continue
+				}
+				canon = append(canon, relabelInduced(n, mask, p))
+			}
+			shards[a] = canon
+		}
+	})
+	var all []uint64
+	for _, s := range shards {
+		all = append(all, s...)
+	}
+	sort.Slice(all, func(i, j int) bool { return all[i] < all[j] })
+	dups := 0
+	var firstDup uint64
+	for i := 1; i < len(all); i++ {
+		if all[i] == all[i-1] {
+			if dups == 0 {
+				firstDup = all[i]
+			}
+			dups++
+		}
+	}
+	c.Evals(int64(len(all)))
+	c.Nontrivial(int64(len(all)))
+	c.Count(fmt.Sprintf("graphs_yielded_n%d_m%d", n, m), int64(len(all)))
+	rp := map[string]int{"n": n, "m": m}
+	if dups > 0 {
+		c.Fail(&Failure{Class: "search/class-yielded-twice", What: fmt.Sprintf("n=%d m=%d: %d yielded graphs repeat the canonical form of another (e.g. %s)", n, m, dups, g6(n, firstDup)), Kind: "search-counted", Replay: rp})
+	}
+	if want := graphCounts[n]; len(all)-dups != want && bad == 0 {
+		cl := "search/class-missing"
+		if len(all)-dups > want {
+			cl = "search/more-classes-than-exist"
+		}
+		c.Fail(&Failure{Class: cl, What: fmt.Sprintf("n=%d m=%d: %d distinct classes yielded, there are %d graphs on %d vertices", n, m, len(all)-dups, want, n), Kind: "search-counted", Replay: rp})
+	}
+}
+
 func runC03(c *Ctx) {
 	c.Level = "exploration"
-	c.Rule = "every configuration (n<=7 (8 thorough), split modulus m in {1..7,64} with all shards a in [0,m), hereditary predicate in {triangle-free, K4-free, C4-free, claw-free, maxdeg<=2, maxdeg<=3, forest, bipartite, independence<=2} placed as preprune / prune / both, shards run sequentially or interleaved): every yielded value is a well-formed graph on n vertices, no isomorphism class (explicit orbit sweep, no canonical-form code) is yielded twice within or across shards, and the yielded classes are exactly those satisfying the predicate; non-trivial = configuration with n >= 4"
+	c.Rule = "every configuration (n<=7 (8 thorough), split modulus m in {1..7,64} with all shards a in [0,m), hereditary predicate in {triangle-free, K4-free, C4-free, claw-free, maxdeg<=2, maxdeg<=3, forest, bipartite, independence<=2} placed as preprune / prune / both, shards run sequentially or interleaved): every yielded value is a well-formed graph on n vertices, no isomorphism class (explicit orbit sweep, no canonical-form code) is yielded twice within or across shards, and the yielded classes are exactly those satisfying the predicate; all shards of n=9 (m=1,5) and n=10 (m=64) together: pairwise distinct canonical forms and the published number of graphs; non-trivial = configuration with n >= 4"
 	maxN := 7
 	if c.Thorough() {
 		maxN = 8
@@ -386,6 +448,9 @@ func runC03(c *Ctx) {
 			c.mu.Unlock()
 		}
 	})
+	c03Counted(c, 9, 1)
+	c03Counted(c, 9, 5)
+	c03Counted(c, 10, 64)
 	c.SetCount("configurations", int64(len(cfgs)))
 	c.SetCount("shard_runs", shards)
 	c.Sample("config", searchCfg{N: 6, M: 3, Pred: "claw-free", Place: "prune"})
@@ -393,6 +458,16 @@ func runC03(c *Ctx) {
 }
 
 func replayC03(kind string, raw json.RawMessage) *Failure {
+	if kind == "search-counted" {
+		var r map[string]int
+		json.Unmarshal(raw, &r)
+		cc := newCtx("C03", "quick")
+		c03Counted(cc, r["n"], r["m"])
+		for _, a := range cc.findings {
+			return a.first
+		}
+		return nil
+	}
 	var cfg searchCfg
 	if err := json.Unmarshal(raw, &cfg); err != nil {
 		return &Failure{Class: "replay/bad-file", What: err.Error()}
